@@ -185,6 +185,10 @@ pub enum WorkShape {
     /// skeleton family: `skel` shared pairwise-distinct items on both sides, free
     /// symbolic items inserted at the given positions (0 = front, 1 = middle, 2 = end)
     Skeleton { alg: Algorithm, skel: usize, old_extra: Vec<u8>, new_extra: Vec<u8> },
+    /// near-identical inputs whose edit touches only repeated items: the shared skeleton
+    /// of `skel` pairwise-different items, with a word over the two free symbols {0,1}
+    /// spliced in at `pos` (1 = middle, 2 = end, 3 = before the last skeleton item) on each side (same length on both sides)
+    Repeats { alg: Algorithm, skel: usize, pos: u8, old_word: Vec<u8>, new_word: Vec<u8> },
 }
 pub struct C19;
 
@@ -263,6 +267,50 @@ impl Prop for C19 {
                     v.push(WorkShape::Skeleton { alg, skel, old_extra: a.clone(), new_extra: b.clone() });
                 }
             }
+            // words over two free symbols, same length on both sides, differing in one or two places
+            let wl = match tier {
+                Tier::Quick => 3,
+                Tier::Thorough => 4,
+            };
+            let rep_skels: &[usize] = match tier {
+                Tier::Quick => &[100],
+                Tier::Thorough => &[50, 100, 200],
+            };
+            for &skel in rep_skels {
+                for pos in [1u8, 2, 3] {
+                    for len in 2..=wl {
+                        for ow in 0..(1u32 << len) {
+                            for nw in 0..(1u32 << len) {
+                                let d = (ow ^ nw).count_ones();
+                                if d == 0 || d > 2 {
+                                    continue;
+                                }
+                                let w = |x: u32| (0..len).map(|i| ((x >> i) & 1) as u8).collect::<Vec<u8>>();
+                                v.push(WorkShape::Repeats { alg, skel, pos, old_word: w(ow), new_word: w(nw) });
+                            }
+                        }
+                    }
+                    // longer words in which every symbol is repeated on both sides (so the edit
+                    // touches only non-unique items and stays inside one run of unique anchors)
+                    for len in (wl + 1)..=(wl + 2) {
+                        let ok = |x: u32| {
+                            let ones = x.count_ones();
+                            let zeros = len - ones;
+                            ones != 1 && zeros != 1
+                        };
+                        for ow in 0..(1u32 << len) {
+                            for nw in 0..(1u32 << len) {
+                                let d = (ow ^ nw).count_ones();
+                                if d == 0 || d > 2 || !ok(ow) || !ok(nw) {
+                                    continue;
+                                }
+                                let w = |x: u32| (0..len).map(|i| ((x >> i) & 1) as u8).collect::<Vec<u8>>();
+                                v.push(WorkShape::Repeats { alg, skel, pos, old_word: w(ow), new_word: w(nw) });
+                            }
+                        }
+                    }
+                }
+            }
         }
         v
     }
@@ -298,6 +346,36 @@ impl Prop for C19 {
                 }
                 (*alg, o, n)
             }
+            WorkShape::Repeats { alg, skel, pos, old_word, new_word } => {
+                let sk = Sym::fresh_vec(*skel);
+                engine::assume(&F::Distinct(sk.iter().map(|x| x.0).collect()));
+                let free = [Sym::fresh(), Sym::fresh()];
+                // the two free symbols differ from every skeleton item (they may equal each other)
+                let mut fs = vec![];
+                for f in &free {
+                    for k in &sk {
+                        fs.push(F::ne(f.0, k.0));
+                    }
+                    engine::set_hash_class(f.0, u64::MAX);
+                }
+                engine::assume(&F::And(fs));
+                for k in &sk {
+                    engine::set_hash_class(k.0, k.0 as u64);
+                }
+                let build = |w: &Vec<u8>| -> Vec<Sym> {
+                    let word: Vec<Sym> = w.iter().map(|b| free[*b as usize]).collect();
+                    let cut = match *pos {
+                        1 => sk.len() / 2,
+                        2 => sk.len(),
+                        _ => sk.len() - 1,
+                    };
+                    let mut v = sk[..cut].to_vec();
+                    v.extend(word);
+                    v.extend_from_slice(&sk[cut..]);
+                    v
+                };
+                (*alg, build(old_word), build(new_word))
+            }
         };
         let (n, m) = (old.len(), new.len());
         let mut mon = Mon::new(&old, 0..n, &new, 0..m);
@@ -332,7 +410,7 @@ impl Prop for C19 {
                 // skeleton family: the reported script is checked minimal by C03 on small
                 // inputs; here D is the reported script size (an upper bound on the true D
                 // would weaken the claim, so Myers' own minimality is relied upon)
-                WorkShape::Skeleton { .. } => mon.deleted + mon.inserted,
+                _ => mon.deleted + mon.inserted,
             }
         } else {
             mon.deleted + mon.inserted
@@ -340,7 +418,7 @@ impl Prop for C19 {
         let c = konst(if alg == Algorithm::Myers { "c19_myers_C" } else { "c19_patience_C" });
         let bound = c * (n as u64 + m as u64 + 1) * (d as u64 + 1);
         engine::stat_max(
-            &format!("{}_{}_comparisons_x100_per_(N+M+1)(D+1)", alg_name(alg), if matches!(s, WorkShape::Small { .. }) { "small" } else { "skeleton" }),
+            &format!("{}_{}_comparisons_x100_per_(N+M+1)(D+1)", alg_name(alg), match s { WorkShape::Small { .. } => "small", WorkShape::Skeleton { .. } => "skeleton", WorkShape::Repeats { .. } => "repeats" }),
             cmps * 100 / ((n as u64 + m as u64 + 1) * (d as u64 + 1)),
         );
         if d >= 1 {
@@ -348,6 +426,9 @@ impl Prop for C19 {
         }
         if matches!(s, WorkShape::Skeleton { .. }) {
             engine::witness("skeleton_paths");
+        }
+        if matches!(s, WorkShape::Repeats { .. }) {
+            engine::witness("repeated_item_edit_paths");
         }
         claim!(
             cmps <= bound,
@@ -361,18 +442,23 @@ impl Prop for C19 {
         match s {
             WorkShape::Small { n, m, .. } => (n + m) as u64,
             WorkShape::Skeleton { skel, old_extra, new_extra, .. } => (*skel as u64 / 50) + (old_extra.len() + new_extra.len()) as u64,
+            WorkShape::Repeats { skel, .. } => *skel as u64 / 50 + 2,
         }
     }
     fn shape_json(&self, s: &WorkShape) -> Value {
         match s {
             WorkShape::Small { alg, n, m } => json!({"kind": "small", "alg": alg_name(*alg), "n": n, "m": m}),
             WorkShape::Skeleton { alg, skel, old_extra, new_extra } => json!({"kind": "skeleton", "alg": alg_name(*alg), "skel": skel, "old_extra": old_extra, "new_extra": new_extra}),
+            WorkShape::Repeats { alg, skel, pos, old_word, new_word } => json!({"kind": "repeats", "alg": alg_name(*alg), "skel": skel, "pos": pos, "old_word": old_word, "new_word": new_word}),
         }
     }
     fn shape_from(&self, v: &Value) -> WorkShape {
         let alg = alg_from(v["alg"].as_str().unwrap());
         if v["kind"] == "small" {
             WorkShape::Small { alg, n: v["n"].as_u64().unwrap() as usize, m: v["m"].as_u64().unwrap() as usize }
+        } else if v["kind"] == "repeats" {
+            let g = |k: &str| v[k].as_array().unwrap().iter().map(|x| x.as_u64().unwrap() as u8).collect();
+            WorkShape::Repeats { alg, skel: v["skel"].as_u64().unwrap() as usize, pos: v["pos"].as_u64().unwrap() as u8, old_word: g("old_word"), new_word: g("new_word") }
         } else {
             let g = |k: &str| v[k].as_array().unwrap().iter().map(|x| x.as_u64().unwrap() as u8).collect();
             WorkShape::Skeleton { alg, skel: v["skel"].as_u64().unwrap() as usize, old_extra: g("old_extra"), new_extra: g("new_extra") }
@@ -382,6 +468,7 @@ impl Prop for C19 {
         match s {
             WorkShape::Small { n, m, .. } => describe_inputs(*n, *m, PLAIN, ints),
             WorkShape::Skeleton { skel, .. } => json!({"skeleton_items": &ints[..(*skel).min(ints.len())].len(), "free_items": &ints[(*skel).min(ints.len())..]}),
+            WorkShape::Repeats { skel, pos, old_word, new_word, .. } => json!({"skeleton_items": skel, "word_position": match *pos { 1 => "middle", 2 => "end", _ => "before the last skeleton item" }, "old_word": old_word, "new_word": new_word, "values_of_the_two_free_symbols": &ints[(*skel).min(ints.len())..]}),
         }
     }
     fn recheck_every(&self, _tier: Tier) -> u64 {
@@ -394,10 +481,10 @@ impl Prop for C19 {
                 "similar::algorithms::patience::diff_deadline (+ unique, Patience hook)",
                 "similar::algorithms::utils::{common_prefix_len, common_suffix_len}",
             ],
-            bounds: format!("(a) every input with n,m in 0..={} (Patience 0..=5), D from a reference LCS (Myers) or the reported script (Patience); (b) skeleton family: {} shared pairwise-distinct items (one z3 distinct) on both sides plus up to {} free symbolic items at front/middle/end of either side, all values of the free items; comparisons counted at PartialEq/Ord of the element type; constants C={} (Myers), C={} (Patience) from constants.json", match tier { Tier::Quick => 5, Tier::Thorough => 6 }, match tier { Tier::Quick => "50/100/200", Tier::Thorough => "50/100/200/400/800" }, match tier { Tier::Quick => 2, Tier::Thorough => 3 }, konst("c19_myers_C"), konst("c19_patience_C")),
+            bounds: format!("(a) every input with n,m in 0..={} (Patience 0..=5), D from a reference LCS (Myers) or the reported script (Patience); (c) repeated-item edits: a skeleton of 100 (thorough 50/100/200) pairwise-different items with a word of length 2..=3 (4), or of length 4..=5 (5..=6) in which every symbol is repeated on both sides, over two free symbols spliced into the middle, at the end, or before the last skeleton item, old and new words of the same length differing in one or two places; (b) skeleton family: {} shared pairwise-distinct items (one z3 distinct) on both sides plus up to {} free symbolic items at front/middle/end of either side, all values of the free items; comparisons counted at PartialEq/Ord of the element type; constants C={} (Myers), C={} (Patience) from constants.json", match tier { Tier::Quick => 5, Tier::Thorough => 6 }, match tier { Tier::Quick => "50/100/200", Tier::Thorough => "50/100/200/400/800" }, match tier { Tier::Quick => 2, Tier::Thorough => 3 }, konst("c19_myers_C"), konst("c19_patience_C")),
             outside: "periodic, small-alphabet, unrelated and block-move inputs of hundreds or thousands of items: the number of equality patterns explodes, a path-enumerating symbolic executor cannot cover them; (a) says nothing about growth and (b) is one family. Hash-map work inside Patience's unique() with a constant hash is quadratic by construction of the harness and is not counted (only element comparisons made by the algorithm's own code and by HashMap key equality are)".into(),
             assumptions: vec!["a comparison = one call of PartialEq::eq / Ord::cmp on the element type".into()],
-            required_witnesses: vec!["paths_with_edits", "skeleton_paths"],
+            required_witnesses: vec!["paths_with_edits", "skeleton_paths", "repeated_item_edit_paths"],
             rule: "one state = one explored path; the claim is a per-path inequality on the measured comparison count".into(),
         }
     }
